@@ -14,6 +14,7 @@ import (
 	"strings"
 	"sync"
 	"verif/internal/props/c01"
+	"verif/internal/props/c06"
 
 	minify "github.com/tdewolff/minify/v2"
 	"github.com/tdewolff/minify/v2/css"
@@ -485,7 +486,7 @@ func (j job) desc() string {
 // Run executes C09.
 func Run(c *core.Check) {
 	limit := c.Pick(1500, 120000)
-	c.Rule = fmt.Sprintf("(i) every file of tests/*/corpus and _benchmarks (all six media types) under the default and an all-non-default registry; (ii) for every such file of at most %d bytes: every deletion of one byte and every replacement of one byte by each of 14 structural bytes (< > \" ' / \\ & ; = ( ) { } newline) (above 20 kB every 11th position); (iii) splices of every ordered pair of small files of the same type at every 16th offset; (iv) every program of the C01 grammar families (stand-alone, and the literal family inside an HTML script element). Only inputs the minifier accepts count (evaluations); the output must be valid by an independent parser (acorn for JS incl. scripts embedded in HTML, encoding/json, own XML reader + strict path-data parser, own CSS tokenizer: no new bad tokens, balanced brackets stay balanced; HTML: raw-text elements end where they ended) and must be accepted again. Non-trivial = accepted input whose output differs from it", limit)
+	c.Rule = fmt.Sprintf("(i) every file of tests/*/corpus and _benchmarks (all six media types) under the default and an all-non-default registry; (ii) for every such file of at most %d bytes: every deletion of one byte and every replacement of one byte by each of 14 structural bytes (< > \" ' / \\ & ; = ( ) { } newline) (above 20 kB every 11th position); (iii) splices of every ordered pair of small files of the same type at every 16th offset; (iv) every program of the C01 grammar families (stand-alone, and the literal family inside an HTML script element); (v) every document of the C06 content-sequence grammar; (vi) every sequence of <=3 HTML raw-text elements with and without type attributes. Only inputs the minifier accepts count (evaluations); the output must be valid by an independent parser (acorn for JS incl. scripts embedded in HTML, encoding/json, own XML reader + strict path-data parser, own CSS tokenizer: no new bad tokens, balanced brackets stay balanced; HTML: raw-text elements end where they ended) and must be accepted again. Non-trivial = accepted input whose output differs from it", limit)
 	c.Assumptions = []string{"acorn 8.16 (script, then module goal), encoding/json, the XML/CSS/path readers of /verif", "inputs rejected by the minifier are outside the premise"}
 	pool, err := jsoracle.NewPool(core.Workers())
 	if err != nil {
@@ -602,6 +603,51 @@ func Run(c *core.Check) {
 		check("application/javascript", text)
 		if strings.HasPrefix(famName, "F7") {
 			check("text/html", "<script>"+text+"</script><p>after</p>")
+		}
+	})
+	// (v) generated XML documents: the content-sequence grammar of C06 (text, CDATA sections incl. the
+	// ]]> corner cases, comments, PIs, children); well-formedness of the output and re-acceptance
+	xfam := "generated-xml-documents"
+	c.ParallelStream(xfam, func(emit func(string) bool) { c06.Documents(c.Pick(2, 3), emit) }, func(idx uint64, doc string) {
+		w := <-workers
+		defer func() { workers <- w }()
+		v := validator{w}
+		for ri, m := range []*minify.M{mdef, mnon} {
+			kind, what, acc := v.CheckOne(m, "text/xml", []byte(doc), false)
+			if !acc && kind == "" {
+				continue
+			}
+			c.Count(1)
+			c.AddFamily(xfam, 1, 1)
+			if kind != "" {
+				c.Fail(core.Failure{Family: "text/xml", Input: doc, Config: []string{"default", "non-default"}[ri], Kind: kind, What: what, Order: idx, Extra: map[string]any{"input_bytes": doc}})
+			}
+		}
+	})
+	// (vi) HTML: every sequence of <=3 raw-text elements with and without type and other attributes
+	// (per-element state such as the current media type must not travel from one to the next)
+	raws := []string{`<style type="text/css">a { b : c }</style>`, `<style>a { b : c }</style>`, `<style media=print>@media x { a { b : c } }</style>`,
+		`<script type="application/ld+json">{ "a" : 1 }</script>`, `<script type=module>import "x" ; f ( )</script>`, `<script src=x></script>`, `<script type="text/x-tmpl"><b>{{x}}</b></script>`,
+		"<script id=boot>var total = 0\nvar items = [1,2,3]\nfor (var i = 0; i < 3; i++) total += items[i]\nf(total)</script>", "<script>var a = 1\nvar b = 2\nf(a, b)</script>", `<script async>g ( )</script>`, `<p>x</p>`, `<textarea>a  b</textarea>`, `<title>t  u</title>`}
+	hseq := core.Sequences{K: len(raws), MaxLen: 3}
+	hfam := "generated-html-raw-text-sequences"
+	c.ParallelRange(hfam, hseq.Count(), func(i uint64) {
+		var b strings.Builder
+		for _, k := range hseq.At(i, nil) {
+			b.WriteString(raws[k])
+		}
+		w := <-workers
+		defer func() { workers <- w }()
+		v := validator{w}
+		doc := b.String()
+		kind, what, acc := v.CheckOne(mdef, "text/html", []byte(doc), false)
+		if !acc && kind == "" {
+			return
+		}
+		c.Count(1)
+		c.AddFamily(hfam, 1, 1)
+		if kind != "" {
+			c.Fail(core.Failure{Family: "text/html", Input: doc, Config: "default", Kind: kind, What: what, Order: i, Extra: map[string]any{"input_bytes": doc}})
 		}
 	})
 	c.Extra["accepted_inputs"] = accepted
